@@ -63,7 +63,18 @@ def ser(v, depth=0) -> str:
         fs = [f for f in dataclasses.fields(v) if not isinstance(getattr(v, f.name), re.Pattern)]  # compiled patterns are class furniture, not data
         sized = hasattr(type(v), "__len__") or hasattr(type(v), "__bool__")
         name = ("sized:" if sized else "") + type(v).__name__
-        return f"O {name} {len(fs)}" + "".join(f" {f.name} {ser(getattr(v, f.name), depth + 1)}" for f in fs)
+        items = [(f.name, getattr(v, f.name)) for f in fs]
+        import functools
+        for k, a in vars(type(v)).items():   # derived attributes that are read like fields (`track.last_note_end_timestamp`)
+            if isinstance(a, functools.cached_property):
+                try:
+                    items.append((k, getattr(v, k)))
+                except Exception:  # noqa: BLE001
+                    pass
+        return f"O {name} {len(items)}" + "".join(f" {k} {ser(x, depth + 1)}" for k, x in items)
+    if hasattr(v, "__dict__") and type(v).__module__.startswith("chartparse"):
+        items = [(k, x) for k, x in vars(v).items() if not k.startswith("__")]
+        return f"O {type(v).__name__} {len(items)}" + "".join(f" {k} {ser(x, depth + 1)}" for k, x in items)
     raise Unserialisable(type(v).__name__)
 
 
@@ -461,7 +472,47 @@ def cases_scanner(rng, n):
     return out
 
 
+def cases_rate(rng, n):
+    """`Chart.notes_per_second`: the two tick-to-time queries and the final rate computation are recorded"""
+    import io
+
+    from chartparse.chart import Chart
+    from chartparse.instrument import Difficulty, Instrument
+    from chartparse.sync import BPMEvents
+    out = []
+    ins, dif = list(Instrument), list(Difficulty)
+    for _ in range(n):
+        res = rng.choice([192, 100, 480])
+        notes = "".join(f"  {t} = N {rng.randint(0, 4)} {rng.choice([0, 0, 50])}\n" for t in sorted(rng.sample(range(0, 2000), rng.choice([0, 1, 3, 5]))))
+        text = (f"[Song]\n{{\n  Resolution = {res}\n}}\n[SyncTrack]\n{{\n  0 = TS 4\n  0 = B 120000\n  {rng.randint(1, 900)} = B {rng.choice([60000, 150000])}\n}}\n"
+                f"[Events]\n{{\n}}\n[ExpertSingle]\n{{\n{notes}}}\n" + ("[HardDrums]\n{\n}\n" if rng.random() < 0.3 else ""))
+        try:
+            c = Chart.from_file(io.StringIO(text))
+        except Exception:  # noqa: BLE001
+            continue
+        i = rng.choice([Instrument.GUITAR] * 8 + [Instrument.DRUMS, Instrument.BASS])
+        d = rng.choice([Difficulty.EXPERT] * 8 + [Difficulty.HARD])
+        form = rng.choice(["none", "tick", "ticks", "time", "times", "endtick", "mixed", "neg"])
+        a = rng.randint(0, 500)
+        b = a + rng.choice([0, rng.randint(1, 2500)])
+        ta = timedelta(microseconds=rng.randint(0, 10**6))
+        tb = ta + timedelta(microseconds=rng.choice([0, rng.randint(1, 5 * 10**6)]))
+        start, end = {"none": (None, None), "tick": (a, None), "ticks": (a, b), "time": (ta, None), "times": (ta, tb), "endtick": (None, b),
+                      "mixed": (a, tb), "neg": (-5, None)}[form]
+        rec = Recorder()
+        with rec.patch(BPMEvents, "timestamp_at_tick_no_optimize_return", ".timestamp_at_tick_no_optimize_return", lambda a_, kw: [a_[0], a_[1]]), \
+                rec.patch(Chart, "_notes_per_second", "._notes_per_second", lambda a_, kw, _c=c: [_c] + list(a_)):
+            real = show_result(c.notes_per_second, i, d, start, end)
+        if rec.ok:
+            try:
+                out.append((request("notesPerSecond", [c, i, d, start, end], rec.log), real, "notesPerSecond"))
+            except Unserialisable:
+                pass
+    return out
+
+
 GENERATORS = {
+    "notesPerSecond": cases_rate,
     "partitionLines": cases_scanner,
     "noteFromParsedDatas": cases_note_lanes,
     "longestSustain": cases_sustain,
